@@ -135,9 +135,12 @@ var kwRe = regexp.MustCompile(`^(arith|monitor|field|ghost|pure|opaque|invariant
 var nameTagRe = regexp.MustCompile(`^\[([A-Za-z0-9_.\-]+)\]\s*`)
 
 func loadContracts(pkgPath, dir string) (*PkgContracts, error) {
+	return loadContractsFile(pkgPath, dir, filepath.Join(dir, "zz_contracts_verif.go"))
+}
+
+func loadContractsFile(pkgPath, dir, file string) (*PkgContracts, error) {
 	pc := &PkgContracts{Path: pkgPath, Dir: dir, Funcs: map[string]*FuncContract{}, Pures: map[string]*PureFunc{},
 		Invs: map[string][]*Invariant{}, Ghosts: map[string][]GhostField{}, Monitors: map[string]*MonitorDecl{}, Props: map[string][]string{}}
-	file := filepath.Join(dir, "zz_contracts_verif.go")
 	pc.File = file
 	f, err := os.Open(file)
 	if err != nil {
